@@ -131,9 +131,51 @@ fn dd(pairs: Vec<(&str, Value)>) -> Value {
     json!({"d": pairs.into_iter().map(|(k, v)| json!([k, v])).collect::<Vec<_>>()})
 }
 
-fn tounicode(map: &Value) -> Vec<u8> {
+fn tounicode(map: &Value, ranges: bool) -> Vec<u8> {
     let mut s = String::from("/CIDInit /ProcSet findresource begin\n12 dict begin\nbegincmap\n/CIDSystemInfo << /Registry (Adobe) /Ordering (UCS) /Supplement 0 >> def\n/CMapName /Adobe-Identity-UCS def\n/CMapType 2 def\n1 begincodespacerange\n<0000> <FFFF>\nendcodespacerange\n");
-    let m = map.as_array().cloned().unwrap_or_default();
+    let all = map.as_array().cloned().unwrap_or_default();
+    let hex_u = |e: &Value| -> String {
+        let mut u = String::new();
+        for c in e["u"].as_array().unwrap() {
+            let ch = char::from_u32(c.as_u64().unwrap() as u32).unwrap_or('?');
+            let mut buf = [0u16; 2];
+            for x in ch.encode_utf16(&mut buf) {
+                u.push_str(&format!("{:04X}", x));
+            }
+        }
+        u
+    };
+    // `ranges`: runs of consecutive CIDs are written as bfrange - the offset form when the targets are consecutive single
+    // code points, the array form otherwise - and only the rest as bfchar
+    let mut m: Vec<Value> = Vec::new();
+    if ranges {
+        let mut runs: Vec<Vec<Value>> = Vec::new();
+        for e in &all {
+            let cid = e["cid"].as_u64().unwrap();
+            match runs.last_mut() {
+                Some(r) if r.last().unwrap()["cid"].as_u64().unwrap() + 1 == cid => r.push(e.clone()),
+                _ => runs.push(vec![e.clone()]),
+            }
+        }
+        let mut lines = Vec::new();
+        for r in runs {
+            if r.len() < 2 {
+                m.push(r[0].clone());
+                continue;
+            }
+            let (lo, hi) = (r[0]["cid"].as_u64().unwrap(), r[r.len() - 1]["cid"].as_u64().unwrap());
+            let single = r.iter().all(|e| e["u"].as_array().unwrap().len() == 1 && e["u"][0].as_u64().unwrap() < 0x10000);
+            let consecutive = single && r.windows(2).all(|w| w[0]["u"][0].as_u64().unwrap() + 1 == w[1]["u"][0].as_u64().unwrap());
+            if consecutive {
+                lines.push(format!("<{:04X}> <{:04X}> <{}>", lo, hi, hex_u(&r[0])));
+            } else {
+                lines.push(format!("<{:04X}> <{:04X}> [{}]", lo, hi, r.iter().map(|e| format!("<{}>", hex_u(e))).collect::<Vec<_>>().join(" ")));
+            }
+        }
+        s.push_str(&format!("{} beginbfrange\n{}\nendbfrange\n", lines.len(), lines.join("\n")));
+    } else {
+        m = all;
+    }
     s.push_str(&format!("{} beginbfchar\n", m.len()));
     for e in &m {
         let cid = e["cid"].as_u64().unwrap();
@@ -167,7 +209,7 @@ pub fn build_file(case: &Value) -> Vec<u8> {
             ("FontDescriptor", rf(8)), ("DW", json!(1000))])}),
         json!({"n": 8, "g": 0, "value": dd(vec![("Type", nm("FontDescriptor")), ("FontName", nm("VerifSans")), ("Flags", json!(4)), ("FontBBox", json!([0, -200, 1000, 800])),
             ("ItalicAngle", json!(0)), ("Ascent", json!(800)), ("Descent", json!(-200)), ("CapHeight", json!(700)), ("StemV", json!(80))])}),
-        json!({"n": 9, "g": 0, "dict": dd(vec![]), "data": tounicode(&case["f2map"]), "filter": "Flate"}),
+        json!({"n": 9, "g": 0, "dict": dd(vec![]), "data": tounicode(&case["f2map"], case["cmapRanges"].as_bool().unwrap_or(false)), "filter": "Flate"}),
     ];
     let mut k = 20u32;
     let mut form_ids = std::collections::BTreeMap::new();
